@@ -125,6 +125,81 @@ theorem run_projects (hR : Respects T R W) (hD : DisjointFootprints R W) (sched 
 
 end
 
+section
+variable {T : Nat → Thread Loc σ} {R W : Nat → Loc → Prop}
+
+omit [DecidableEq Loc] in
+theorem respectsAt_of_respects (hR : Respects T R W) (c : Cfg Loc σ) : RespectsAt T R W c :=
+  fun i a h => hR i _ a h
+
+theorem step_other_invisible_at (hD : DisjointFootprints R W) (c : Cfg Loc σ) (hR : RespectsAt T R W c) {i j : Nat}
+    (hij : j ≠ i) : SameView R W i (step T c j) c := by
+  constructor
+  · simp only [step]
+    split
+    · next e => exact absurd e.symm hij
+    · rfl
+  · intro l hl
+    simp only [step, stepThread]
+    cases hn : (T j).next (c.loc j) with
+    | none => rfl
+    | some a =>
+      simp only
+      apply writeAll_notin
+      intro p hp
+      obtain ⟨l', v⟩ := p
+      have hW : W j l' := (hR j a hn).2 l' (fst_mem_of_mem_zip hp)
+      intro e
+      have e' : l' = l := e
+      subst e'
+      have := hD j i hij l' hW
+      rcases hl with h | h
+      · exact this.1 h
+      · exact this.2 h
+
+theorem step_self_determined_at (c c' : Cfg Loc σ) (hR : RespectsAt T R W c) (i : Nat) (h : SameView R W i c c') :
+    SameView R W i (step T c i) (step T c' i) := by
+  obtain ⟨hloc, hmem⟩ := h
+  simp only [SameView, step, stepThread, if_true]
+  rw [← hloc]
+  cases hn : (T i).next (c.loc i) with
+  | none => exact ⟨rfl, hmem⟩
+  | some a =>
+    have hfp := hR i a hn
+    have hrd : a.rd.map c.mem = a.rd.map c'.mem :=
+      map_congr_mem _ _ _ (fun l hl => hmem l (Or.inl (hfp.1 l hl)))
+    simp only
+    rw [← hrd]
+    exact ⟨rfl, fun l hl => writeAll_congr _ _ _ _ (hmem l hl)⟩
+
+/-- projection of an interleaving when footprints are only known to be respected in the configurations the
+    interleaving actually passes through -/
+theorem run_projects_at (hD : DisjointFootprints R W) (sched : List Nat) (i : Nat) :
+    ∀ c c' : Cfg Loc σ, SameView R W i c c' →
+      (∀ p, p <+: sched → RespectsAt T R W (run T c p)) →
+      SameView R W i (run T c sched) (runAlone T c' i (sched.count i)) := by
+  induction sched with
+  | nil => intro c c' h _; simpa [run, runAlone] using h
+  | cons j sched ih =>
+    intro c c' h hR
+    have hc0 : RespectsAt T R W c := hR [] (List.nil_prefix)
+    have hrest : ∀ p, p <+: sched → RespectsAt T R W (run T (step T c j) p) := by
+      intro p hp
+      have := hR (j :: p) ((List.cons_prefix_cons).mpr ⟨rfl, hp⟩)
+      simpa [run] using this
+    by_cases hj : j = i
+    · subst hj
+      have hc : (j :: sched).count j = sched.count j + 1 := by simp
+      rw [hc]
+      simp only [run, runAlone, List.replicate_succ]
+      exact ih _ _ (step_self_determined_at c c' hc0 j h) hrest
+    · have hc : (j :: sched).count i = sched.count i := by simp [hj]
+      rw [hc]
+      simp only [run]
+      exact ih _ _ (sameView_trans (step_other_invisible_at hD c hc0 hj) h) hrest
+
+end
+
 /-- enabled actions of different threads never conflict when footprints are respected and disjoint -/
 theorem conflictAt_false {T : Nat → Thread Loc σ} {R W : Nat → Loc → Prop} (hR : Respects T R W)
     (hD : DisjointFootprints R W) (c : Cfg Loc σ) {i j : Nat} (hij : i ≠ j) : conflictAt T c i j = false := by
